@@ -397,6 +397,7 @@ def judge(plan, events, fresh):
                        "differs from truncated-LCG model", None,
                        {"n": n, "seed": seed, "model": _hx(m), "now": _hx(v)}))
   stats["states"] = sorted(stats["states"])
+  stats["exhaustive_n_generators"] = 1 if plan.get("exhaustive_n") else 0
   return events, viol, stats
 
 
@@ -468,7 +469,18 @@ def directed_plans(prop, profile):
                 {"op": "rng_pair", "name": "urandom", "n": 64, "key": 5},
                 {"op": "rng_pair", "name": "subsetsum256/16", "n": 256,
                  "key": 5}]}
-  return [("directed-F6", f6), ("directed-F7", f7)]
+  out = [("directed-F6", f6), ("directed-F7", f7)]
+  # every n in 1..2048 for every generator of the registry (one seed each,
+  # derived from the generator name): the statement's full range of n
+  import hashlib
+  for nm in registry_names():
+    seed = int.from_bytes(hashlib.sha256(nm.encode()).digest()[:9], "big") | 1
+    out.append(("exhaustive-n-" + nm, {
+        "engine": "D", "property": PROPERTY, "profile": profile,
+        "entropy_key": 3, "exhaustive_n": True,
+        "ops": [{"op": "rng", "name": nm, "n": n, "seed": seed}
+                for n in range(1, 2049)]}))
+  return out
 
 
 ASSUMPTIONS = [
@@ -501,6 +513,8 @@ def coverage(prop, results):
               "trivial = an unseeded first call of a history",
       "samples": [r["sample"] for r in results[:3]],
       "counts": agg,
+      "exhaustive_part": "every n in 1..2048 for %d generators (one seed "
+                         "each)" % agg.get("exhaustive_n_generators", 0),
       "fault_kinds": {"entropy_rekey": "host op 'rekey'",
                       "global_prng_disturbance": agg.get("host_ops", 0)},
       "components": {"rng.py": "real", "os.urandom": "SimEntropy stub",
